@@ -220,6 +220,29 @@ theorem C06_emission_after_dependencies (deps : DepFn) (params order l1 l2 : Lis
   simp only [textNames, writeClauses]
   rw [hcons, List.filter_append, List.filter_append, List.filter_append, List.filter_append]
 
+/-- The same for dependencies *through other fields* (`DependsOn` = transitive closure of the
+mention relation, virtual fields included — they hold no data, so a physical field located
+through `let off = n * 2` really depends on `n`): in the ordering of C15 every field `d` that
+`f` depends on, directly or indirectly, is a runtime parameter or stands before `f`, hence is
+written before `f` if it is written at all (`textNames` keeps the order, first conjunct of
+`C06_emission_after_dependencies`).  An ordering that treats virtual fields as always available
+(seeded change C06-m2) is not `TopoFrom` and is refuted by the harness on the real code. -/
+theorem C06_emission_after_transitive_dependencies (deps : DepFn) (params order l1 l2 : List Nat)
+    (f d : Nat) (h : TopoFrom deps params order) (hp : ∀ p ∈ params, deps p = [])
+    (hs : order = l1 ++ f :: l2) (hd : DependsOn deps f d) : d ∈ params ∨ d ∈ l1 := by
+  subst hs
+  exact topoFrom_transitive deps params hp hd l1 l2 h
+
+/-- Non-vacuity: field 0 (`payload`) is located through the virtual field 1 (`let off = n * 2`),
+whose input is field 2 (`n`), declared last; parameter 7 has no dependencies.  C15's ordering
+puts `n`, `off`, `payload`; `payload` depends on `n` only through `off`. -/
+def exVDeps : DepFn := fun f => if f = 0 then [1] else if f = 1 then [2, 7] else []
+example : order exVDeps [7] [0, 1, 2] = [2, 1, 0] ∧ TopoFrom exVDeps [7] [2, 1, 0] ∧
+    (∀ p ∈ [7], exVDeps p = []) ∧ DependsOn exVDeps 0 2 ∧ 2 ∉ exVDeps 0 ∧
+    ¬ TopoFrom exVDeps [7] [0, 2, 1] := by
+  refine ⟨by decide, by decide, by decide, ?_, by decide, by decide⟩
+  exact .step (m := 1) (by decide) (.direct (by decide))
+
 /-! ## The array reader refuses the multi-line writer's own output (open finding) -/
 
 def exArrShape : RShape := .struct (.cons "xs".toList (.arr 2 (.scalar (.int .u8 0 255))) .nil)
